@@ -98,8 +98,10 @@ class Baton:
             while not (self.owner is None and (me in self.parked or me in self.finished)):
                 self.cv.wait()
 
-    def run(self, ops, first, k1, k2):
-        """ops: dict name -> callable (two entries).  Returns line steps per thread."""
+    def run(self, ops, first, k1, k2, k3=None):
+        """ops: dict name -> callable (two entries).  Returns line steps per thread.
+        With k3: a third pre-emption - `first` runs k3 more steps after the other
+        thread's k2 steps, then the other thread runs to completion, then `first`."""
         names = list(ops)
         other = [n for n in names if n != first][0]
         threads = [threading.Thread(target=self._worker, args=(n, ops[n]), daemon=True, name=n) for n in names]
@@ -122,8 +124,13 @@ class Baton:
 
         advance(first, k1)
         advance(other, k2)
-        advance(first, INF)
-        advance(other, INF)
+        if k3 is not None:
+            advance(first, k3)
+            advance(other, INF)
+            advance(first, INF)
+        else:
+            advance(first, INF)
+            advance(other, INF)
         for t in threads:
             t.join(timeout=10)
         return dict(self.steps)
